@@ -17,6 +17,7 @@ mod c07;
 mod c09;
 mod c10;
 mod c12;
+mod c14;
 mod c11expr;
 mod c15;
 mod c16;
@@ -45,6 +46,7 @@ fn main() {
         "C10" => c10::run(&mut out, thorough, seed),
         "C11" => c11expr::run(&mut out, thorough, seed),
         "C12" => c12::run(&mut out, thorough, seed),
+        "C14" => c14::run(&mut out, thorough, seed),
         "C15" => c15::run(&mut out, thorough, seed),
         "C16" => c16::run(&mut out, thorough, seed),
         "C17" => c17::run(&mut out, thorough, seed),
